@@ -154,6 +154,27 @@ fn main() {
             eprintln!("bad replay file: {e}");
             std::process::exit(2);
         });
+        if v["case"]["kind"] == "l32" {
+            let seed = v["case"]["seed"].as_u64().unwrap_or(0).to_string();
+            let count = v["case"]["count"].as_u64().unwrap_or(4).to_string();
+            let st = std::process::Command::new("cargo")
+                .current_dir(verif_dir.join("harness"))
+                .args(["+nightly", "miri", "run", "-q", "--target", "i686-unknown-linux-gnu", "-p", "mlv", "--bin", "mlv-miri", "--", "L32", &count, &seed])
+                .env("MIRIFLAGS", "-Zmiri-tree-borrows -Zmiri-disable-isolation -Zmiri-no-extra-rounding-error")
+                .env("CARGO_TARGET_DIR", verif_dir.join("build").join("miri"))
+                .env("CARGO_NET_OFFLINE", "true")
+                .status();
+            match st {
+                Ok(s) if s.success() => {
+                    println!("replay: property {} holds in the 32-bit-limb stage", id);
+                    std::process::exit(0);
+                }
+                _ => {
+                    println!("VIOLATION property={} replay={}", id, args[3]);
+                    std::process::exit(1);
+                }
+            }
+        }
         if v["case"]["kind"] == "miri" {
             let idx = v["case"]["index"].as_str().unwrap_or("0").to_string();
             let seed = v["case"]["seed"].as_u64().unwrap_or(0).to_string();
